@@ -37,7 +37,7 @@ class C05(Check):
         "up to 3 stray bytes after a raw deflate stream are tolerated and counted (zlib trailer remnant left by fastavro and Apache Python)",
         "codecs limited to null/deflate/bzip2/xz (others not importable here)",
     ]
-    required_labels = ["kind:fa2ref", "kind:ref2fa", "kind:isavro", "kind:fixture", "ref2fa:empty-block", "ref2fa:chunked-header", "ref2fa:no-codec-key", "fa2ref:blocks>=2", "isavro:true", "isavro:false", "isavro:short"]
+    required_labels = ["kind:fa2ref", "kind:ref2fa", "kind:isavro", "kind:fixture", "fa2ref:appended", "ref2fa:empty-block", "ref2fa:chunked-header", "ref2fa:no-codec-key", "fa2ref:blocks>=2", "isavro:true", "isavro:false", "isavro:short"]
     quick = (500, 1)
     thorough = (3000, 16)
 
@@ -55,6 +55,9 @@ class C05(Check):
         codecs = [c for c in concase.usable_codecs(fastavro) if c in concase.REF_CODECS]
         feat = self.feat
         fa2ref = concase.container_cases(feat, codecs, with_stream=False).map(lambda c: dict(c, kind="fa2ref"))
+        # the same file produced in two sessions: created with one set of arguments, appended to with another
+        fa2ref_append = st.tuples(concase.container_cases(feat, codecs, with_stream=False), st.integers(0, 6), st.sampled_from(["none", "same"])).map(
+            lambda t: dict(t[0], kind="fa2ref", append_at=t[1], append_schema=t[2]))
 
         @st.composite
         def ref2fa(draw):
@@ -137,7 +140,7 @@ class C05(Check):
                 data = draw(st.binary(max_size=12))
             return {"kind": "isavro", "data": data, "as_path": d.p(0.3)}
 
-        return st.one_of(fa2ref, ref2fa(), ref2fa(), isavro())
+        return st.one_of(fa2ref, fa2ref_append, ref2fa(), ref2fa(), isavro())
 
     def fixed_cases(self, tier):
         d = os.path.join(env.repo_path(), "tests", "avro-files")
@@ -165,7 +168,15 @@ class C05(Check):
         if case.get("level") is not None:
             kw["codec_compression_level"] = case["level"]
         fo = io.BytesIO()
-        guard("write-container", fastavro.writer, fo, schema, case["records"], **kw)
+        if "append_at" in case and case["records"]:
+            cut = min(case["append_at"], len(case["records"]))
+            labels.add("fa2ref:appended")
+            guard("write-container", fastavro.writer, fo, schema, case["records"][:cut], **kw)
+            fo.seek(0, 2)
+            kw2 = {"codec": case["codec2"], "sync_interval": case["sync_interval2"], "metadata": {"late": "ignored"}}
+            guard("append-through-writer-function", fastavro.writer, fo, None if case["append_schema"] == "none" else schema, case["records"][cut:], **kw2)
+        else:
+            guard("write-container", fastavro.writer, fo, schema, case["records"], **kw)
         data = fo.getvalue()
         try:
             pf = RC.parse(data)
